@@ -77,7 +77,7 @@ CLAIMED = {
         technique="Lean 4 theorems on the parser model's context operations + scope-skeleton generator with known verdicts",
         design="7/C07"),
     "C08": dict(
-        text="Theorems (Props/C08.lean): for every literal without $ and backquote the text bash reads between the quotes the converter writes is the literal itself and the quote ends "
+        text="SEMANTIC SIDE (Props/C08Sem.lean, strings_are_opaque_in_the_script): in the fragment of the C02 theorem a literal may contain every ASCII character except $ and backquote; the script prints exactly the strings the source semantics computes, through assignment, concatenation, comparison, parameters, return values, slice elements, copy, subscripts and len. All special strings of the generator are also run through the Lean models next to /bin/bash in every run (evidence: semantic_models). Theorems (Props/C08.lean): for every literal without $ and backquote the text bash reads between the quotes the converter writes is the literal itself and the quote ends "
              "where it was closed (model of bash's double-quote rules); escaping distributes over concatenation; through the assignment and printf templates. The negative result "
              "for $/backquote is proved too (known finding). Run-time values via ${var} in quotes: execution oracle with canaries.",
         note=TB + "the double-quote model follows Bash manual 3.1.2.3; expansion results not being re-scanned is bash semantics (oracle).",
